@@ -574,3 +574,83 @@ def fat32_high_cluster_session(rng):
              "open_file 0 %s 8" % h("high.bin"), "read_all 8 5000", "extents 8", "drop_file 8",
              "open_dir 0 %s 9" % h("High Dir/low inside high/moved sub"), "list 9", "drop_all", "unmount"]
     return head + lines
+
+
+# ------------------------------------------------------------------------------------------------ boundary volumes x standard script
+def boundary_volumes(rng, tier):
+    """volumes at the boundaries the sizing / addressing / allocation code cares about, each as (label, head lines up to and
+    including the mount, cluster size).  Found through the library's own format (boot-sector hook) where a cluster count has to be
+    hit exactly."""
+    out = []
+    def plain(label, ts, bps, bpc, fat="-", root="-", fats="2", fill=None, pokes=()):
+        size = ts * bps
+        dev = dev_line(rng, size) if fill is None else "dev %d %d" % (size, fill)
+        fmt = "format %d %d %s %s %s %s - - -" % (bps, ts, bpc, fat, root, fats)
+        out.append((label, [dev, "wlog 0", fmt] + list(pokes) + ["pages", "wlog 1", "mount 1 0 lossy"], int(bpc) if bpc != "-" else bps))
+    # table without a spare entry behind the last cluster
+    for bits, start in ((12, 300), (16, 4400), (32, 66600)):
+        ts = vlib.exact_fit_sectors(512, 512, start, bits)
+        if ts:
+            plain("fat%d-exactfit" % bits, ts, 512, 512, str(bits), "32" if bits != 32 else "-")
+    # cluster counts where the width changes
+    for clusters, start in ((4084, 4090), (4085, 4090), (65524, 65600), (65525, 65600)):
+        r = vlib.sectors_for_clusters(512, 512, clusters, start)
+        if r:
+            plain("fat%d-%dclusters" % (r[1], clusters), r[0], 512, 512)
+    # maximal-size FAT12/16 with only the top clusters free
+    for bits in (12, 16):
+        t = topfree_volume(bits, keep=rng.range(12, 16))
+        if t:
+            out.append((t[0], t[1], t[2]))
+    # FAT32 with the hint beyond cluster 0xFFFF
+    hint = rng.choice([65535, 65536, 70001])
+    plain("fat32-high-hint", 100200, 512, 512, "32", "-", "2", pokes=["poke %d %s" % (512 + 492, hint.to_bytes(4, "little").hex())])
+    # large sectors / clusters on stale devices, one FAT copy, tiny fixed root
+    plain("fat12-s4k-stale", 200, 4096, 4096, "-", "128", "1", fill=209)
+    plain("fat12-s1k-c2k-stale", 600, 1024, 2048, "12", "32", "2", fill=65)
+    plain("fat16-c2k-1fat-stale", 18000, 512, 2048, "16", "512", "1", fill=229)
+    plain("fat12-root16", 64, 512, 512, "12", "16", "2")
+    if tier == "thorough":
+        plain("fat32-s1k-1fat", 67000, 1024, 1024, "32", "-", "1")
+        plain("fat12-odd-clusters", 403, 512, 512, "12", "32", "2")
+    return out
+
+
+def standard_script(rng, cs):
+    """one compact history touching every operation kind at its boundaries: files of 0 / 1 / cs-1 / cs / cs+1 / several clusters,
+    cursor on cluster boundaries followed by forward and backward seeks, truncation at 0 / inside the last cluster / on a boundary / at
+    the end, append after truncation, a directory that grows, renames (in place, respell, across directories, of a directory),
+    removals, a second session (remount) that reads everything back and modifies through fresh handles"""
+    h = hexs
+    L = ["list 0", "stats",
+         "create_file 0 %s 1" % h("empty.bin"), "drop_file 1",
+         "create_file 0 %s 2" % h("One Cluster.bin"), "write_pat 2 %d 1" % cs, "seek 2 start %d" % cs, "seek 2 cur 0", "read 2 5", "drop_file 2",
+         "create_file 0 %s 3" % h("three and a bit.bin"), "write_pat 3 %d 2" % (cs - 1), "write_pat 3 2 3", "write_pat 3 %d 4" % (2 * cs + 5), "flush 3",
+         "seek 3 start %d" % cs, "seek 3 cur 1", "read 3 %d" % cs, "seek 3 start %d" % (2 * cs), "seek 3 start %d" % (3 * cs + 1), "read 3 10",
+         "seek 3 start %d" % cs, "seek 3 end -1", "read 3 9", "seek 3 start %d" % (2 * cs), "truncate 3", "seek 3 end 0", "write_pat 3 %d 5" % (cs + 3), "flush 3",
+         "seek 3 start %d" % (3 * cs + 3), "truncate 3", "extents 3", "seek 3 start %d" % (3 * cs + 1), "truncate 3", "flush 3", "extents 3", "drop_file 3",
+         "create_dir 0 %s 4" % h("Dir A"), "create_dir 4 %s 5" % h("nested dir with a long name"), "drop_dir 5"]
+    for k in range(9):
+        L += ["create_file 4 %s 6" % h("entry number %02d in dir a.txt" % k), "write_pat 6 %d %d" % ((k % 3) * cs + k, k), "drop_file 6"]
+    L += ["list 4", "stats",
+          "rename 0 %s 0 %s" % (h("One Cluster.bin"), h("ONE CLUSTER.BIN")),
+          "rename 0 %s 4 %s" % (h("three and a bit.bin"), h("moved into dir a.bin")),
+          "rename 4 %s 0 %s" % (h("nested dir with a long name"), h("nested moved to root")),
+          "rename 0 %s 0 %s" % (h("Dir A/entry number 03 in dir a.txt"), h("back in root.txt")),
+          "remove 4 %s" % h("entry number 04 in dir a.txt"), "remove 0 %s" % h("empty.bin"),
+          "create_file 4 %s 7" % h("after removal.txt"), "write_pat 7 %d 9" % (cs // 2), "drop_file 7",
+          "list 0", "list 4", "stats", "drop_all", "unmount", "mount 1 0 lossy", "list 0", "stats",
+          "open_file 0 %s 8" % h("dir a/MOVED INTO DIR A.BIN"), "read_all 8 100000", "extents 8", "seek 8 start %d" % cs, "truncate 8", "drop_file 8",
+          "open_file 0 %s 9" % h("one cluster.bin"), "seek 9 end 0", "write_pat 9 %d 7" % (cs + 1), "seek 9 start 0", "read_all 9 100000", "drop_file 9",
+          "open_dir 0 %s 10" % h("nested moved to root"), "list 10", "drop_dir 10",
+          "remove 0 %s" % h("nested moved to root"), "remove 0 %s" % h("back in root.txt"),
+          "list 0", "stats", "drop_all", "unmount"]
+    return L
+
+
+def matrix_sessions(rng, tier, lost_free=False, small_only=False):
+    """the standard script on every boundary volume ([lost_free]: without the volumes whose occupied clusters are pre-marked
+    one-cluster chains nobody references - for checks that evaluate the structural invariants)"""
+    return [(label, head + standard_script(rng, cs)) for (label, head, cs) in boundary_volumes(rng, tier)
+            if not (lost_free and "topfree" in label)
+            and not (small_only and (label.startswith("fat32") or "65524" in label or "65525" in label or "16-exactfit" in label))]
